@@ -83,7 +83,8 @@ fn bodies(maxlen: usize) -> Vec<String> {
         v.push(whole.to_string());
     }
     // well-formed single options, so that the accepting path is exercised too
-    for o in ["rename = \"x\"", "default", "default = f", "with = f", "skip", "skip = false", "map = f", "and_then = f", "multiple", "flatten", "rename_all = \"snake_case\"", "attributes(a)", "forward_attrs", "supports(any)", "word", "from_ident", "allow_unknown_fields", "bound = \"T: X\"", "from_word = f", "from_none = || None"] {
+    for o in ["rename = \"x\"", "default", "default = f", "with = f", "skip", "skip = false", "map = f", "and_then = f", "multiple", "flatten", "rename_all = \"snake_case\"", "attributes(a)", "forward_attrs", "supports(any)", "word", "from_ident", "allow_unknown_fields", "bound = \"T: X\"", "from_word = f", "from_none = || None",
+        "::map = f", "::and_then = f", "::default", "::skip", "::flatten", "::rename = \"x\"", "a::map = f", "::attributes(a)", "::supports(any)", "::from_word = f", "::word", "::multiple"] {
         v.push(format!("#[darling({o})]"));
     }
     v
@@ -102,6 +103,9 @@ fn shapes(thorough: bool) -> Vec<String> {
         "struct S({F} u8, u8);".into(),
         "struct S(u8, {F} u8, u8);".into(),
         "struct S {}".into(),
+        "struct S();".into(),
+        "enum E { {V} A(), B {} }".into(),
+        "struct S({F} u8, #[darling(skip)] u16);".into(),
         "struct S { {F} a: u8 }".into(),
         "struct S { {F} a: u8, b: Vec<u8> }".into(),
         "struct S { a: u8, {F} b: u8, attrs: Vec<u8> }".into(),
